@@ -47,15 +47,15 @@ pub fn defs() -> Vec<PropDef> {
             run: run_c09,
             replay: replay_c09,
             post: |_, g, _| {
-                for k in ["nonempty-prefix", "sequence-of-3", "overwrite-recorded", "prefix-over-64-octets"] {
+                for k in ["nonempty-prefix", "sequence-of-3", "overwrite-recorded", "prefix-over-64-octets", "far-positions"] {
                     if !g.contains_key(k) {
                         return Err(format!("C09 guard {k} never hit"));
                     }
                 }
                 Ok(())
             },
-            rule: "HIST: stateright breadth-first search; state = the real VecWriter next to a Vec<u8> model; initial states = writers already holding {0, 1, 7, 300} octets; actions = encode one entry of a 14-entry menu (control ZLB / with AVPs / with a 1023-octet AVP, data with and without optional fields, single AVPs incl. hidden and 300-octet payloads); after every action the writer must equal the old content followed by the encoding of that value into an empty writer. Every history is also run through a Writer that records positional overwrites: each must lie inside the value currently being encoded, and the result must equal the VecWriter's. Non-trivial: states at depth >= 1.",
-            bounds: |t| json!({"prefixes_octets": [0, 1, 7, 300], "menu": 14, "depth": if t.thorough() {4} else {3}}),
+            rule: "HIST: stateright breadth-first search; state = the real VecWriter next to a Vec<u8> model; initial states = writers already holding {0, 1, 7, 300} octets; actions = encode one entry of a 14-entry menu (control ZLB / with AVPs / with a 1023-octet AVP, data with and without optional fields, single AVPs incl. hidden and 300-octet payloads); after every action the writer must equal the old content followed by the encoding of that value into an empty writer; additionally every menu entry and every pair is encoded at 17 far writer positions (2^8 .. 2^63, on a Writer that pretends to hold the earlier octets) and into real VecWriters holding 64 KiB +- a few octets. Every history is also run through a Writer that records positional overwrites: each must lie inside the value currently being encoded, and the result must equal the VecWriter's. Non-trivial: states at depth >= 1.",
+            bounds: |t| json!({"prefixes_octets": [0, 1, 7, 300], "menu": 14, "depth": if t.thorough() {4} else {3}, "far_positions": FAR_BASES.to_vec(), "real_prefixes_octets": [65530, 65534, 65535, 65536, 65537, 70000, 131071, 131072]}),
             assumptions: COMMON_ASSUMPTIONS,
             fd_monitor: false,
             mem_gb: |_| 16,
@@ -824,6 +824,10 @@ fn run_c09(ctx: &mut Ctx) {
             )
         },
     );
+    // far positions: the same menu encoded at writer positions that cannot be reached by
+    // allocating (2^16, 2^24, 2^31, 2^32 ... on a Writer that only pretends to hold the earlier
+    // octets), sequences of up to two values, plus real VecWriters holding 64 KiB +- a few octets
+    far_positions(ctx, &alone);
     if n > 4 {
         ctx.guard("nonempty-prefix");
         ctx.guard("prefix-over-64-octets");
@@ -836,7 +840,108 @@ fn run_c09(ctx: &mut Ctx) {
     let _ = alone;
 }
 
+pub const FAR_BASES: [usize; 17] = [
+    255, 256, 65_534, 65_535, 65_536, 65_537, 65_600, (1 << 24) - 1, 1 << 24, (1 << 31) - 1, 1 << 31, (1usize << 32) - 2, (1usize << 32) - 1, 1usize << 32, (1usize << 32) + 1, 1usize << 40, usize::MAX >> 1,
+];
+
+fn check_far(ctx: &mut Ctx, alone: &[Vec<u8>], base: usize, items: &[u8], real: bool) {
+    let menu = enc_menu();
+    let names: Vec<&str> = items.iter().map(|i| menu[*i as usize].0).collect();
+    let case = || json!({"kind":"far-position","base":base,"items":items,"real":real});
+    let mut want: Vec<u8> = Vec::new();
+    if real {
+        // a real VecWriter that holds `base` octets
+        let mut w = VecWriter { data: vec![0x5a; base] };
+        for i in items {
+            if let Err(p) = guarded(|| encode_item(&menu[*i as usize].1, &mut w)) {
+                ctx.violation(format!("C09 far-position panics {}", names.last().unwrap_or(&"")), format!("VecWriter holding {base} octets, encoding {names:?}: panic at {}: {}", p.0, p.1), items.len(), case);
+                return;
+            }
+            want.extend_from_slice(&alone[*i as usize]);
+        }
+        if w.data[..base].iter().any(|b| *b != 0x5a) {
+            let at = w.data[..base].iter().position(|b| *b != 0x5a).unwrap();
+            ctx.violation("C09 far-position earlier-content-changed".into(), format!("VecWriter holding {base} octets, encoding {names:?}: octet {at} of the earlier content was overwritten"), items.len(), case);
+        } else if w.data[base..] != want[..] {
+            ctx.violation("C09 far-position appended-octets-differ".into(), format!("VecWriter holding {base} octets, encoding {names:?}: appended octets differ from the encodings into an empty writer"), items.len(), case);
+        }
+        return;
+    }
+    let mut w = RecordingWriter::at_position(base);
+    for i in items {
+        let start = w.len();
+        let seen = w.overwrites.len();
+        if let Err(p) = guarded(|| encode_item(&menu[*i as usize].1, &mut w)) {
+            ctx.violation(format!("C09 far-position panics {}", names.last().unwrap_or(&"")), format!("writer position {base}, encoding {names:?}: panic at {}: {}", p.0, p.1), items.len(), case);
+            return;
+        }
+        want.extend_from_slice(&alone[*i as usize]);
+        if let Some(o) = w.out_of_range.first() {
+            ctx.violation(
+                format!("C09 far-position overwrite-outside-value {}", menu[*i as usize].0.split('-').next().unwrap_or("")),
+                format!("writer position {start}: encoding {} issues a positional overwrite of {} octets at offset {} (at {}), outside the value being encoded [{start}, {})", menu[*i as usize].0, o.len, o.offset, o.site, o.writer_len),
+                items.len(),
+                case,
+            );
+            return;
+        }
+        if let Some(o) = w.overwrites[seen..].iter().find(|o| o.offset < start) {
+            ctx.violation(
+                format!("C09 far-position overwrite-outside-value {}", menu[*i as usize].0.split('-').next().unwrap_or("")),
+                format!("writer position {start}: overwrite at offset {} lies before the value being encoded", o.offset),
+                items.len(),
+                case,
+            );
+            return;
+        }
+    }
+    if w.data != want {
+        ctx.violation("C09 far-position appended-octets-differ".into(), format!("writer position {base}, encoding {names:?}: appended octets differ from the encodings into an empty writer"), items.len(), case);
+    }
+}
+
+fn far_positions(ctx: &mut Ctx, alone: &[Vec<u8>]) {
+    let n = enc_menu().len() as u8;
+    let mut count = 0u64;
+    for base in FAR_BASES {
+        for a in 0..n {
+            check_far(ctx, alone, base, &[a], false);
+            count += 1;
+            for b in 0..n {
+                check_far(ctx, alone, base, &[a, b], false);
+                count += 1;
+            }
+        }
+    }
+    for base in [65_530usize, 65_534, 65_535, 65_536, 65_537, 70_000, 131_071, 131_072] {
+        for a in 0..n {
+            check_far(ctx, alone, base, &[a], true);
+            check_far(ctx, alone, base, &[a, (a + 3) % n], true);
+            count += 2;
+        }
+    }
+    ctx.states += count;
+    ctx.transitions += count;
+    ctx.executions += count;
+    ctx.nontrivial_direct += count;
+    ctx.guard("far-positions");
+    ctx.extra.insert("far_position_cases".into(), json!(count));
+}
+
 fn replay_c09(ctx: &mut Ctx, v: &Value) {
+    if v["kind"].as_str() == Some("far-position") {
+        let alone = match alone_encodings() {
+            Ok(a) => a,
+            Err(e) => {
+                ctx.violation("C09 encode-into-empty-panics".into(), e, 0, || v.clone());
+                return;
+            }
+        };
+        let base = v["base"].as_u64().unwrap_or(0) as usize;
+        let items: Vec<u8> = v["items"].as_array().map(|a| a.iter().map(|x| x.as_u64().unwrap_or(0) as u8).collect()).unwrap_or_default();
+        check_far(ctx, &alone, base, &items, v["real"].as_bool().unwrap_or(false));
+        return;
+    }
     let prefix = v["prefix"].as_u64().unwrap_or(0) as u16;
     let items: Vec<u8> = v["items"].as_array().map(|a| a.iter().map(|x| x.as_u64().unwrap_or(0) as u8).collect()).unwrap_or_default();
     let alone = match alone_encodings() {
